@@ -234,3 +234,56 @@ Qed.
 Lemma inst_pairs_names_and_ids : forall e ns,
   map snd (inst_pairs e ns) = ns /\ (NoDup ns -> NoDup (map fst (inst_pairs e ns))).
 Proof. intros e ns. split; [apply inst_pairs_names|apply inst_pairs_ids_nodup]. Qed.
+
+(* ---- the flat enum dictionary: untouched by the body, extended by exactly the finished record on exit ---- *)
+Lemma enum_statement_keeps_enums : forall al d st lvs ut st1 w e r st2,
+  enter_assign al d st lvs ut = Ok (st1, w) -> vs_stack st = FEnum e :: r -> leave_assign st1 = Ok st2 ->
+  vs_enums st2 = vs_enums st.
+Proof.
+  intros al d st lvs ut st1 w e r st2 H Hs H2. destruct (enter_assign_enum _ _ _ _ _ _ _ _ _ H Hs) as [nss [F Hst]].
+  assert (Hs1 : vs_stack st1 = FAssign (map (mk_inst e) (List.concat nss)) :: FEnum e :: r) by (subst st1; cbn; now rewrite Hs).
+  destruct (leave_assign_enum _ _ _ _ Hs1) as [st2' [Hl [_ [_ [He _]]]]]. rewrite Hl in H2. inversion H2; subst st2'.
+  rewrite He. subst st1. reflexivity.
+Qed.
+
+Section EnumBodyDict.
+  Variables (al : aliases) (d : docs) (pref_doc warn : bool).
+
+  Lemma enum_body_keeps_enums : forall defs s1 w1 s2 w2 e below,
+    (fix go (cur : vstate * W) (ms : list cmember) : res (vstate * W) :=
+       match ms with
+       | [] => Ok cur
+       | x :: r => if enum_child x && negb (is_placeholder x)
+                   then do s' <- walk_member al d pref_doc warn (fst cur) x; go (fst s', wapp (snd cur) (snd s')) r else go cur r
+       end) (s1, w1) defs = Ok (s2, w2) ->
+    vs_stack s1 = FEnum e :: below -> vs_enums s2 = vs_enums s1.
+  Proof.
+    induction defs as [|x r IH]; intros s1 w1 s2 w2 e below HF S1.
+    - inversion HF; subst. reflexivity.
+    - destruct (enum_child x && negb (is_placeholder x)) eqn:EW; [|eapply IH; eauto].
+      destruct x as [lvs ut|f|f|n p i t|c|c n]; cbn in EW; try discriminate.
+      cbn [fst snd] in HF.
+      change (walk_member al d pref_doc warn s1 (CMAssign lvs ut))
+        with (do x <- enter_assign al d s1 lvs ut; do y <- leave_assign (fst x); Ok (y, snd x)) in HF.
+      destruct (enter_assign al d s1 lvs ut) as [[sa wa]|] eqn:EA; [|discriminate].
+      destruct (enum_assignment_statement _ _ _ _ _ _ _ _ _ EA S1) as [nss0 [st2 [F [HL HK]]]].
+      cbn [bind fst snd] in HF. rewrite HL in HF. cbn [bind fst snd] in HF.
+      rewrite (IH _ _ _ _ _ _ HF HK). eapply enum_statement_keeps_enums; eauto.
+  Qed.
+
+  (* a module-level enum definition registers exactly its finished record under its id, and nothing else, in the flat
+     enum dictionary (the record is the one the module lists: enum_inventory) *)
+  Theorem enum_registered : forall c st st' w m r,
+    walk_member al d pref_doc warn st (CMClass c) = Ok (st', w) -> is_enum_def c = true -> vs_stack st = FModule m :: r ->
+    exists e, vs_stack st' = FModule (mod_add_enum m e) :: r /\ vs_enums st' = dict_set (e_id e) e (vs_enums st).
+  Proof.
+    intros c st st' w m r H He Hs. cbn [walk_member] in H. rewrite He in H.
+    unfold enter_enum in H. destruct (doc_class d (cd_fullname c)) as [doc|] eqn:ED; [|discriminate]. cbn [bind fst snd] in H.
+    match type of H with bind ?X _ = _ => destruct X as [[s2 w2]|] eqn:EG end; [|discriminate].
+    pose proof EG as EG2.
+    eapply enum_body in EG; [|cbn; rewrite Hs; reflexivity]. destruct EG as [nss [F S2]].
+    eapply enum_body_keeps_enums in EG2; [|cbn; rewrite Hs; reflexivity].
+    cbn [bind fst snd] in H. unfold leave_enum in H. rewrite S2 in H. inversion H; subst. cbn [vs_stack vs_enums].
+    eexists. split; [reflexivity|]. rewrite EG2. reflexivity.
+  Qed.
+End EnumBodyDict.
